@@ -4,7 +4,7 @@
    and the global silence statement over all schedules; both are checked on every run (check_C10).
    Known finding F11 (SimpleService.stop_announce) is outside the model. *)
 From PS Require Import Lib.Base Generated.Consts Model.SdTypes Model.Config Model.Session Model.StackTypes Model.Stack
-  Proofs.StackOpsProofs.
+  Model.StackIO Proofs.StackOpsProofs Proofs.WorldInv.
 
 Theorem C10_initial_delay_in_window : forall t w tk inst,
   get_task t w = Some tk -> tk_done tk = false -> tk_must_cancel tk = false -> tk_kind tk = TOffer inst -> tk_pc tk = 0 ->
@@ -38,7 +38,17 @@ Proof. exact answer_suppressed_when_not_ready. Qed.
 Theorem C10_stop_idempotent : forall w, ann_started w = false -> announcer_stop w = w.
 Proof. exact announcer_stop_idempotent. Qed.
 
+(* on the full stack model, under every schedule: a task that sleeps (offer / find / subscribe refresh) owns a pending,
+   uncancelled wake-up handle - no wake-up is lost, and a finished task is not asleep *)
+Theorem C10_sleeping_task_owns_its_wakeup : forall w, G w -> forall t tid, sleep_of w t = Some tid ->
+  In (tid, HSleepDone t) (tided w) /\ memN tid (cancelled w) = false.
+Proof. intros w Hg t tid H. exact (g_sleep _ _ Hg t tid H). Qed.
+Theorem C10_in_every_reachable_state : forall s sc, d_scenario s = Some sc -> G (fst (run_scenario sc)).
+Proof. exact G_reachable. Qed.
+
 Print Assumptions C10_initial_delay_in_window.
+Print Assumptions C10_sleeping_task_owns_its_wakeup.
+Print Assumptions C10_in_every_reachable_state.
 Print Assumptions C10_first_offer.
 Print Assumptions C10_repetition_and_cyclic_delays.
 Print Assumptions C10_offer_content.
